@@ -60,8 +60,10 @@ class RerunFormatter(Formatter):
 
     def eof(self):
         """Called at end of a feature."""
-        if self.current_feature and self.current_feature.status.has_failed():
+        if self.current_feature:
             # -- COLLECT SCENARIO FAILURES: failed or error-class (error, hook_error, ...)
+            # NOTE: Independent of the feature status (in dry-run mode, a feature
+            #       with an undefined step may be untested as a whole).
             for scenario in self.current_feature.walk_scenarios():
                 if scenario.status.has_failed():
                     self.failed_scenarios.append(scenario)
